@@ -33,6 +33,22 @@ CHECKS = {
          "Holds on every path and therefore under every goroutine schedule (thread pinning is a structural fact); kernel acceptance is trusted.",
          "Trusted: go/ssa dominators, runtime.LockOSThread semantics, prctl(2) argument contract.",
          "DESIGN.md section 4, C11"),
+ "C15": ("other", "dominance rules on the no-return-pruned CFG of cmd/sandbox.main: process start dominated by the success edges of the parser and of LoadFilter; every failure region ends in os.Exit(non-zero) without a process start; value-origin of Filter.Policy; TSYNC in the literal",
+         "All paths through main, including each failure edge; that the target observes exactly the policy's decisions is C01-C08 plus the kernel and is not claimed.",
+         "Trusted: go/ssa, os.Exit/log.Fatal do not return, enumerated process-start functions of os/exec, os, syscall.",
+         "DESIGN.md section 4, C15"),
+ "C16": ("other", "panic-site obligations (gc prove pass BCE listing joined to SSA + SSA scan + nil-dereference guards), loop-form/recursion classification for termination, scanner-error and error-branch discipline, dominance/phi-edge rules for the instruction window, append-only result, name-from-table under `found`",
+         "Covers every function of the disasm package on all paths (any text); necessary structural conditions for each clause of the statement.",
+         "Trusted: go/ssa, the compiler's prove pass (compiles, never runs), listed std functions do not panic on any string; API root pointer parameters assumed non-nil.",
+         "DESIGN.md section 4, C16"),
+ "C17": ("other", "publish-by-rename typestate: the cache path is never created directly, only os.Rename'd into place, dominated (interprocedurally, through helpers whose nil returns establish it) by the checked success of Run, Flush and Close; full-digest reuse guard",
+         "Decides which file states any crash point or disassembler failure can leave under the trusted name from the shape of the writer (all paths).",
+         "Trusted: go/ssa dominators, atomic rename within a directory, exec.Cmd.Run error contract. Not covered: directory fsync durability (not in the statement).",
+         "DESIGN.md section 4, C17"),
+ "C18": ("other", "SSA guard/origin rules for the three set loops, dominance of sort.Strings over both emitters on the same slice value, typed AST of the profile literal, parsed text/template of the code emitter, tag/key agreement",
+         "Skeleton only (guards, order, sortedness, duplicate-freedom by construction, literals, keys); the set equation as a function of its inputs is value-level and not claimed.",
+         "Trusted: go/ssa, sort.Strings, text/template/parse, yaml.v2 key conventions; relies on C12 (injective tables) and C16 (Name = table[Num]).",
+         "DESIGN.md section 4, C18"),
 }
 NOT_YET = "check under construction in this session (see DESIGN.md section 4 for the planned rules); not claimed until it runs"
 ALL = ["C%02d" % i for i in range(1, 20)]
